@@ -18,6 +18,8 @@ props.prop(
             'subsets, removing groups the command created and restoring the edit-subset choice',
     not_decided='value-level inverses (that the restored state object is the right one), commands defined outside glue/',
     assumptions=['selection commands change the session only through EditSubsetMode.update'])
+props.also('C13',
+           'the path conditions under which undo deletes / keeps subsets')
 
 CMD = 'glue.core.command.'
 INVERSE = {'append': 'remove', 'remove': 'append', 'add_layer': 'remove_layer', 'remove_layer': 'add_layer'}
